@@ -199,6 +199,13 @@ def run_c14(ctx):
                 amount = 1
             recipient = keys.pks[n_keys]
             change = keys.pks[n_keys + 1] if rng.random() < 0.7 else keys.pks[0]
+            r_ = rng.random()
+            if r_ < 0.12:
+                recipient = change                      # paying the very key the change goes to (two outputs to one key)
+                res.count("recipient_is_the_change_key")
+            elif r_ < 0.2:
+                recipient = keys.pks[rng.randrange(0, n_keys)]      # paying one of the wallet's own keys
+                res.count("recipient_is_a_wallet_key")
             before_spent = set(w.spent_transaction_outputs)
             try:
                 tx = create_spend_transaction(w, cs, amount, fee, SECP256k1PublicKey(recipient), SECP256k1PublicKey(change))
